@@ -338,8 +338,19 @@ class Gen:
             use.append(("expr", ("assign", ("member", ("ident", self.pick(["a", "b"])), PROP[t]), ("ident", c))))
         return ("block", [("decl", "const", [(c, None, ("ident", v))]), ("expr", ("assign", ("ident", v), newv))] + use)
 
+    def reread_block(self, d):
+        """the same property read before and after a slot call that changes it (straight-line code, one basic block): the second read is a NEW read"""
+        o = self.pick(["a", "b", "sub"])
+        y = self.pick([x for x in ("a", "b") if x != o] or ["a"])
+        rd = lambda: ("binary", self.pick(["==", "!="]), ("member", ("ident", o), "next"), ("null",))
+        log = lambda: ("expr", ("call", ("member", ("ident", "console"), "log"), [rd()]))
+        return ("block", [log(), ("expr", ("call", ("member", ("ident", o), "setNext"), [("ident", y)])), log(),
+                          ("expr", ("call", ("member", ("ident", o), "setNext"), [("null",)])), log()])
+
     def stmt(self, d, ret_ty):
         r = self.rng.random()
+        if r < 0.04 and self.handler:
+            return self.reread_block(d)
         if r < 0.08 and self.handler:
             ab = self.alias_block(d)
             if ab is not None:
